@@ -79,6 +79,9 @@ ImplOf(e) ==
     [] e.a = "Restore" -> DoRestore
     [] e.a = "Finish" -> \E ord \in [GroupIds -> Perms(Tombs)] : DoFinish(ord)
     [] e.a = "GoLive" -> DoGoLive
+    \* real one-node server (TestVerifMetadataRealRestart): only the state before a
+    \* restart (Sync) and after recovery (FinishReal) is recorded, no step-level claim
+    [] e.a \in {"Sync", "FinishReal"} -> TRUE
     [] OTHER -> UNCHANGED <<streams, groups, lastPub, disk, applied, mode, nrep, sref, snap, pre>>
 
 \* determinism: while A serves (live), it agrees with B
